@@ -1,5 +1,6 @@
 import Oracle.Util
 import MobiusModel.RWLock
+import MobiusModel.GrownState
 /-! Oracle handlers for C03 (model functions exposed on the line protocol). -/
 namespace Oracle
 open Mobius
@@ -33,6 +34,14 @@ def rwRunOp (a : List String) : String :=
       s!"steps={if acc.isEmpty then "-" else acc} readers={natList s.readers} writer={w} waiting={natList s.waiting}"
   go RWLock.init "" a
 
-def c03Handlers : List (String × Handler) := [("rwrun", rwRunOp)]
+/-- `replyheader n len*`: header total size and the 16-bit field prefixes of a transaction whose fields
+    carry data of the given lengths (GrownState.replyHeader). -/
+def replyHeaderOp : List String → String
+  | _ :: lens =>
+    let r := GrownState.replyHeader (lens.map num)
+    s!"total={r.1} prefixes={if r.2.isEmpty then "-" else natList r.2}"
+  | _ => "bad-op"
+
+def c03Handlers : List (String × Handler) := [("rwrun", rwRunOp), ("replyheader", replyHeaderOp)]
 
 end Oracle
